@@ -110,6 +110,7 @@ func NewGoLevelDB(name string, dir string, cache int) (*GoLevelDB, error) {
 	database.seekCompGauge = metrics.NewRegisteredGauge(namespace+"compact/seek", nil)
 
 	// Start up the metrics gathering and return
+	verifOpen(database, dbPath)
 	go database.meter(metricsGatheringInterval)
 
 	return database, nil
@@ -134,6 +135,7 @@ func (db *GoLevelDB) Get(key []byte) ([]byte, error) {
 
 // Set set
 func (db *GoLevelDB) Set(key []byte, value []byte) error {
+	verifWrite(db, "Set", key, 1)
 	err := db.db.Put(key, value, nil)
 	if err != nil {
 		llog.Error("Set", "error", err)
@@ -144,6 +146,7 @@ func (db *GoLevelDB) Set(key []byte, value []byte) error {
 
 // SetSync 同步
 func (db *GoLevelDB) SetSync(key []byte, value []byte) error {
+	verifWrite(db, "SetSync", key, 1)
 	err := db.db.Put(key, value, &opt.WriteOptions{Sync: true})
 	if err != nil {
 		llog.Error("SetSync", "error", err)
@@ -154,6 +157,7 @@ func (db *GoLevelDB) SetSync(key []byte, value []byte) error {
 
 // Delete 删除
 func (db *GoLevelDB) Delete(key []byte) error {
+	verifWrite(db, "Delete", key, 1)
 	err := db.db.Delete(key, nil)
 	if err != nil {
 		llog.Error("Delete", "error", err)
@@ -164,6 +168,7 @@ func (db *GoLevelDB) Delete(key []byte) error {
 
 // DeleteSync 删除同步
 func (db *GoLevelDB) DeleteSync(key []byte) error {
+	verifWrite(db, "DeleteSync", key, 1)
 	err := db.db.Delete(key, &opt.WriteOptions{Sync: true})
 	if err != nil {
 		llog.Error("DeleteSync", "error", err)
@@ -550,6 +555,7 @@ func (mBatch *goLevelDBBatch) Delete(key []byte) {
 }
 
 func (mBatch *goLevelDBBatch) Write() error {
+	verifWrite(mBatch.db, "BatchWrite", nil, mBatch.batch.Len())
 	err := mBatch.db.db.Write(mBatch.batch, mBatch.wop)
 	if err != nil {
 		llog.Error("Write", "error", err)
@@ -582,6 +588,7 @@ type goLevelDBTx struct {
 }
 
 func (db *goLevelDBTx) Commit() error {
+	verifWrite(db, "TxCommit", nil, 0)
 	return db.tx.Commit()
 }
 
